@@ -14,6 +14,8 @@ import (
 	"github.com/pdfcpu/pdfcpu/pkg/pdfcpu/model"
 	"github.com/pdfcpu/pdfcpu/pkg/pdfcpu/types"
 	"verif/harness/lib/h"
+	"verif/harness/lib/proj"
+	"verif/harness/lib/rawpdf"
 )
 
 // The command modes of Sec.tla (NeedsTable and Unclassified) by name.
@@ -255,21 +257,24 @@ type pitem struct {
 	Op   string `json:"op"`
 }
 
-// patchToR3 rewrites the encryption dictionary of an RC4-128 (V4/R4, crypt filter V2) document in place to the
-// equivalent V2/R3 form (same key derivation, same length in bytes).
-func patchToR3(b []byte) []byte {
+// patchEncDict rewrites entries of the encryption dictionary in place (old/new pairs of equal length), e.g. an
+// RC4-128 document (V4/R4, crypt filter V2) into the equivalent V2/R3 form: same key derivation, same byte offsets.
+func patchEncDict(b []byte, pairs ...string) []byte {
 	i := bytes.Index(b, []byte("/Filter/Standard"))
 	if i < 0 {
 		h.Die("no encryption dictionary found")
 	}
+	// the dictionary object starts at the preceding "obj"
+	st := bytes.LastIndex(b[:i], []byte(" obj"))
 	j := i + bytes.Index(b[i:], []byte("endobj"))
-	seg := append([]byte{}, b[i:j]...)
-	if !bytes.Contains(seg, []byte("/R 4")) || !bytes.Contains(seg, []byte("/V 4")) {
-		h.Die("unexpected encryption dictionary: %s", seg)
+	seg := append([]byte{}, b[st:j]...)
+	for k := 0; k+1 < len(pairs); k += 2 {
+		if !bytes.Contains(seg, []byte(pairs[k])) || len(pairs[k]) != len(pairs[k+1]) {
+			h.Die("unexpected encryption dictionary (no %s): %s", pairs[k], seg)
+		}
+		seg = bytes.Replace(seg, []byte(pairs[k]), []byte(pairs[k+1]), 1)
 	}
-	seg = bytes.Replace(seg, []byte("/R 4"), []byte("/R 3"), 1)
-	seg = bytes.Replace(seg, []byte("/V 4"), []byte("/V 2"), 1)
-	out := append([]byte{}, b[:i]...)
+	out := append([]byte{}, b[:st]...)
 	out = append(out, seg...)
 	return append(out, b[j:]...)
 }
@@ -312,10 +317,14 @@ func c26(in, out string, shard, of int) {
 		upw, opw string
 		pairs    [][2]string
 		apiPairs [][2]string
+		optional bool // the algorithm may refuse this password at encryption time
 	}
 	variants := []variant{
-		{"a", "b", [][2]string{{"a", ""}, {"", "b"}, {"a", "long"}}, [][2]string{{"a", ""}, {"", "b"}}},
-		{"", "b", [][2]string{{"", ""}, {"", "long"}}, [][2]string{{"", "long"}}},
+		{"a", "b", [][2]string{{"a", ""}, {"", "b"}, {"a", "long"}}, [][2]string{{"a", ""}, {"", "b"}}, false},
+		{"", "b", [][2]string{{"", ""}, {"", "long"}}, [][2]string{{"", "long"}}, false},
+		// user passwords consisting of white space only are not empty: permissions apply
+		{"sp", "b", [][2]string{{"sp", ""}, {"sp", "long"}, {"", ""}}, [][2]string{{"sp", ""}}, true},
+		{"tab", "b", [][2]string{{"tab", ""}}, nil, true},
 	}
 	if h.Arg("--pairs") == "full" {
 		variants[0].pairs = append(variants[0].pairs, [2]string{"b", ""}, [2]string{"a", "b"}, [2]string{"long", "long"})
@@ -323,7 +332,7 @@ func c26(in, out string, shard, of int) {
 		variants[0].apiPairs = append(variants[0].apiPairs, [2]string{"a", "b"})
 		variants[1].apiPairs = append(variants[1].apiPairs, [2]string{"", ""})
 	}
-	docs, reads, apis, denied, refusedOther := 0, 0, 0, 0, 0
+	docs, reads, apis, denied, refusedOther, skipped := 0, 0, 0, 0, 0, 0
 	lineNo := 0
 	err = h.EachLine(in, func(line []byte) error {
 		lineNo++
@@ -336,20 +345,44 @@ func c26(in, out string, shard, of int) {
 		}
 		docs++
 		encAlg := d.Alg
-		if d.Alg == "rc4_128_r3" {
+		switch d.Alg {
+		case "rc4_128_r3":
 			encAlg = "rc4_128"
+		case "rc4_40_v2":
+			encAlg = "rc4_40"
 		}
 		for vi, v := range variants {
 			enc := filepath.Join(dir, fmt.Sprintf("enc%d.pdf", vi))
 			os.Remove(enc)
-			c := encConf(encAlg, pw(v.upw), pw(v.opw))
-			c.Permissions = permFlags(d.P)
-			if err := api.EncryptFile(src(encAlg), enc, c); err != nil {
-				h.Die("cannot encrypt the document for %s P=%d: %v", d.Alg, d.P, err)
+			if d.Alg == "rc4_40_r3" {
+				// /V 1 /R 3: encrypted by the harness itself (pdfcpu does not write this pairing)
+				src := rawpdf.MarkerDoc([]rawpdf.PageSpec{{Marker: "mk-1", Rotate: -1}, {Marker: "mk-2", Rotate: 90}}, rawpdf.MarkerOpts{})
+				if err := os.WriteFile(enc, encryptV1R3(src, pw(v.upw), pw(v.opw), int32(d.P)), 0o644); err != nil {
+					h.Die("write: %v", err)
+				}
+				if m, err := proj.Markers(enc, pwConf("", pw(v.opw))); err != nil || len(m) != 2 || m[0] != "mk-1" {
+					h.Die("the /V 1 /R 3 document of the harness cannot be read back with its owner password: %v %v", m, err)
+				}
+			} else {
+				c := encConf(encAlg, pw(v.upw), pw(v.opw))
+				c.Permissions = permFlags(d.P)
+				if err := api.EncryptFile(src(encAlg), enc, c); err != nil {
+					if v.optional {
+						skipped++
+						continue
+					}
+					h.Die("cannot encrypt the document for %s P=%d: %v", d.Alg, d.P, err)
+				}
 			}
-			if d.Alg == "rc4_128_r3" {
+			switch d.Alg {
+			case "rc4_128_r3":
 				b, _ := os.ReadFile(enc)
-				if err := os.WriteFile(enc, patchToR3(b), 0o644); err != nil {
+				if err := os.WriteFile(enc, patchEncDict(b, "/R 4", "/R 3", "/V 4", "/V 2"), 0o644); err != nil {
+					h.Die("write: %v", err)
+				}
+			case "rc4_40_v2":
+				b, _ := os.ReadFile(enc)
+				if err := os.WriteFile(enc, patchEncDict(b, "/V 1", "/V 2"), 0o644); err != nil {
 					h.Die("write: %v", err)
 				}
 			}
@@ -423,5 +456,5 @@ func c26(in, out string, shard, of int) {
 		h.Die("c26: %v", err)
 	}
 	h.Summary(map[string]any{"docs": docs, "reads": reads, "apis": apis, "denied": denied, "refused_other": refusedOther,
-		"modes": len(names), "ops": len(ops)})
+		"modes": len(names), "ops": len(ops), "skipped_variants": skipped})
 }
